@@ -132,17 +132,25 @@ Truncate(s, n) == IF n < Len(s) THEN SubSeqSafe(s, 1, n) ELSE s
 Without(s, bytes) == LET drop == {bytes[i] : i \in 1..Len(bytes)} IN SelectSeq(s, LAMBDA b : b \notin drop)
 JoinPath(p, f) == IF p = <<>> \/ p[Len(p)] = Slash THEN p \o f ELSE p \o <<Slash>> \o f
 
-\* components separated by '/' (possibly empty ones)
+\* components separated by '/' (possibly empty ones).  Not a recursive definition: TLC does not memoize recursive
+\* function applications, and the recorded strings are up to 770 bytes long.
 Split(s) ==
-    LET F[i \in 0..Len(s)] ==
-          IF i = 0 THEN <<<<>>>>
-          ELSE IF s[i] = Slash THEN Append(F[i - 1], <<>>)
-          ELSE [F[i - 1] EXCEPT ![Len(F[i - 1])] = Append(@, s[i])]
-    IN F[Len(s)]
+    LET P == {i \in 1..Len(s) : s[i] = Slash}
+        n == Cardinality(P)
+        rank == [x \in P |-> Cardinality({y \in P : y < x})]
+        Q == [k \in 1..n |-> CHOOSE x \in P : rank[x] = k - 1]        \* the separator positions in ascending order
+    IN [k \in 1..(n + 1) |-> SubSeqSafe(s, IF k = 1 THEN 1 ELSE Q[k - 1] + 1, IF k = n + 1 THEN Len(s) ELSE Q[k] - 1)]
 
+SumLen(comps, k) ==      \* total length of the first k components (k >= 0)
+    LET S[j \in 0..k] == IF j = 0 THEN 0 ELSE S[j - 1] + Len(comps[j]) IN S[k]
 JoinWith(comps, sep) ==
-    LET J[i \in 0..Len(comps)] == IF i = 0 THEN <<>> ELSE IF i = 1 THEN comps[1] ELSE J[i - 1] \o sep \o comps[i]
-    IN J[Len(comps)]
+    \* position arithmetic instead of a recursion: start[k] = offset of component k in the result
+    LET n == Len(comps)
+        start == [k \in 1..n |-> (k - 1) * Len(sep) + SumLen(comps, k - 1)]
+    IN IF n = 0 THEN <<>>
+       ELSE [i \in 1..(start[n] + Len(comps[n])) |->
+                LET k == CHOOSE k \in 1..n : start[k] < i /\ (k = n \/ i <= start[k + 1]) IN
+                IF i - start[k] <= Len(comps[k]) THEN comps[k][i - start[k]] ELSE sep[i - start[k] - Len(comps[k])]]
 
 \* Path::normalize: no empty and no "." components, a leading separator is kept, none at the end
 Normalize(s) ==
@@ -209,10 +217,11 @@ Resolve(s) ==
     LET comps == Split(s)
         G[i \in 0..Len(comps)] ==
           IF i = 0 THEN <<>>
-          ELSE LET c == comps[i] IN
-               IF c = <<>> \/ c = <<Dot>> THEN G[i - 1]
-               ELSE IF c = <<Dot, Dot>> THEN (IF G[i - 1] = <<>> THEN <<>> ELSE SubSeqSafe(G[i - 1], 1, Len(G[i - 1]) - 1))
-               ELSE Append(G[i - 1], c)
+          ELSE LET c == comps[i]
+                   g == G[i - 1] IN          \* (one reference: TLC does not memoize recursive applications)
+               IF c = <<>> \/ c = <<Dot>> THEN g
+               ELSE IF c = <<Dot, Dot>> THEN (IF g = <<>> THEN <<>> ELSE SubSeqSafe(g, 1, Len(g) - 1))
+               ELSE Append(g, c)
     IN G[Len(comps)]
 
 PathFor(root, file) == root \o <<Slash>> \o file
